@@ -20,16 +20,16 @@ def run(ctx, col, tier):
     col.rule("R-REROOT", "re-rooting: the chain new root -> old root is collected by following "
              "parents; only pid and type are stored; the new root gets -1; every other chain node "
              "is re-parented to its former child; the type exchange is between the two ends of "
-             "the chain", floor=6)
+             "the chain", floor=6, shape=True)
     col.rule("R-SHIFT", "concatenation shifts id and parent id of the second tree by the same "
-             "amount, the node count of the first tree", floor=2)
+             "amount, the node count of the first tree", floor=2, shape=True)
     col.rule("R-SENT", "the second tree's shifted root marker never survives: its root is either "
              "re-linked to the junction node or deleted (merge), and the link/removal targets are "
-             "computed before the shift", floor=4)
-    col.rule("R-XYZ", "the translation statements form one family over x, y, z", floor=1)
+             "computed before the shift", floor=4, shape=True)
+    col.rule("R-XYZ", "the translation statements form one family over x, y, z", floor=1, shape=True)
     col.rule("R-CAT", "concatenation plumbing: second tree re-rooted at the junction when needed "
              "(without renumbering), columns appended first-tree-first for every key of the first "
-             "tree, result renumbered before return, translate flag gates the translation", floor=6)
+             "tree, result renumbered before return, translate flag gates the translation", floor=6, shape=True)
     col.rule("R-CG", "recursion-free", floor=2)
     col.not_decided += ["edge-set preservation and rigid translation as statements about values",
                         "the merge tolerance"]
